@@ -270,6 +270,8 @@ class TCPConn:
         if tr is None or tr.closed:
             return
         self.net.log("tcp_in", self.cid, chunk.hex())
+        if self.net.pre_deliver is not None:
+            self.net.pre_deliver("tcp", self, chunk)
         self.net.guard(tr.protocol.data_received, chunk, where="data_received")
 
     def server_close(self, exc: Exception | None = None, lat: float = 0.001):
@@ -307,6 +309,7 @@ class SimNet:
         self.udp_create_hook: Callable | None = None
         self.protocol_escapes: list[dict[str, Any]] = []
         self.stats: Counter[str] = Counter()
+        self.pre_deliver: Callable | None = None     # optional hook(kind, receiver, data), called right before a delivery
 
     def log(self, kind, actor, detail):
         if self._log is not None:
@@ -415,6 +418,8 @@ class SimNet:
                 self.faults.fired["partition_drop"] += 1
                 return
             self.log("udp_in", f"{src[0]}:{src[1]}>{t.addr[0]}:{t.addr[1]}", data.hex())
+            if self.pre_deliver is not None:
+                self.pre_deliver("udp", t, data)      # a world may act in the very iteration a datagram is read, just before
             t._deliver(data, src)
 
         # the event is keyed by the *receiving socket* so that one socket gets at most
